@@ -16,7 +16,7 @@ contract("selectors:IndexSelector._normalized_index",
 contract("selectors:JSONPathSelector.resolve",
     requires=["isinstance(self, JSONPathSelector)", "wf_env(self.env)", "wf_selector(self, self.env)"] + WF_NODE,
     yields=["implies(not truthy(self.env.nondeterministic), out == select(self, node))", "all(wf_node(n) for n in out)"],
-    raises=["JSONPathTypeError", "JSONPathRecursionError"], props=["C01", "C02"], abstract=True)
+    raises=["JSONPathError"], props=["C01", "C02"], abstract=True)
 
 contract("selectors:IndexSelector.resolve",
     requires=["isinstance(self, IndexSelector)", "is_int(self.index)"] + WF_NODE, unfold=["is_json"],
@@ -44,14 +44,15 @@ contract("selectors:WildcardSelector.resolve",
            2: ["out == wild_prefix(node, i2)", "all(wf_node(n) for n in out)"]},
     raises=[], props=["C01", "C08", "C17"])
 
-contract("selectors:FilterSelector.resolve", heavy=True,
-    requires=["isinstance(self, FilterSelector)", "wf_env(self.env)", "wf_selector(self, self.env)"] + WF_NODE,
-    unfold=["wf_selector", "is_json"],
-    yields=["implies(not truthy(self.env.nondeterministic), out == sel_filter(self.expression, self.env, node))",
-            "all(wf_node(n) for n in out)"],
-    loops={1: ["implies(not truthy(self.env.nondeterministic), out == filter_prefix(self.expression, self.env, node, i1))", "all(wf_node(n) for n in out)"],
+contract("selectors:FilterSelector.resolve",
+    requires=["isinstance(self, FilterSelector)", "wf_env(self.env)", "det(self.env)", "wf_selector(self, self.env)"] + WF_NODE,
+    unfold=["wf_selector", "is_json", "wf_env", "wf_ctx"],
+    yields=["out == sel_filter(self.expression, self.env, node)", "all(wf_node(n) for n in out)"],
+    loops={1: ["out == filter_prefix(self.expression, self.env, node, i1)", "all(wf_node(n) for n in out)"],
            2: ["out == filter_prefix(self.expression, self.env, node, i2)", "all(wf_node(n) for n in out)"]},
-    raises=["JSONPathTypeError", "JSONPathRecursionError"], props=["C02", "C13", "C17"])
+    raises=["JSONPathError"], props=["C02", "C13"],
+    note="verified for deterministic mode (requires det): in nondeterministic mode the filter selector's part of the abstract "
+         "selector contract (outputs are well-formed nodes, only JSONPathError escapes) is assumed and decided by the bounded C17 run")
 
 contract("selectors:IndexSelector.__init__",
     requires=["wf_env(env)", "is_int(index)"], unfold=["wf_env"],
